@@ -87,6 +87,22 @@ PairRootCases ==
       : ss \in {"param", "ret", "chan", "event"}, ps \in {"param", "ret", "chan", "event"},
         pc \in {"tup_ab", "tup_ba", "vec_tup", "hmap_ab", "opt_tup3"}, so \in {1, 2} }
 
+\* ---- C07: ONE field whose type mentions TWO project types (a tuple, a map with a project key, a sequence of pairs),
+\* one of which may be the struct itself: the type beside `Self` in a self-referential field is reachable like any other
+PairOf(pc, x, y) == CASE pc = "tup"     -> [k |-> "tup", ts |-> <<Node(x), Node(y)>>]
+                      [] pc = "vec_tup" -> [k |-> "vec", a |-> [k |-> "tup", ts |-> <<Node(x), Node(y)>>]]
+                      [] pc = "hmap"    -> [k |-> "hmap", a |-> Node(x), b |-> Node(y)]
+                      [] pc = "opt_hmap_vec" -> [k |-> "opt", a |-> [k |-> "hmap", a |-> Node(x), b |-> [k |-> "vec", a |-> Node(y)]]]
+                      [] pc = "tup3"    -> [k |-> "tup", ts |-> <<Node(x), L("num"), Node(y)>>]
+PairFieldCases ==
+    { [kind |-> "graph", nodes |-> <<"A", "B", "C">>,
+       edges |-> [n \in N3 |-> IF n = "A" THEN {[ctx |-> "direct", to |-> x, also |-> {y} \ {x}, ty |-> PairOf(pc, x, y)]}
+                               ELSE IF n = "B" /\ chain THEN {[ctx |-> "direct", to |-> "C", ty |-> Node("C")]} ELSE {}],
+       serde |-> [n \in N3 |-> TRUE],
+       roots |-> {[site |-> s, ctx |-> "direct", to |-> "A", ty |-> Node("A"), also |-> {}, ord |-> 1]}]
+      : x \in N3, y \in N3, pc \in {"tup", "vec_tup", "hmap", "opt_hmap_vec", "tup3"}, chain \in BOOLEAN,
+        s \in {"param", "ret", "chan", "event"} }
+
 \* ---- C07: what KIND of serde type a reachable leaf is: a struct with named fields, a unit struct (`struct Ping;`),
 \* a struct with empty braces, a unit-variant enum.  Chain A -> B -> C and fan A -> {B, C}.
 NodeKinds == {"named", "unit", "empty_braces", "enum"}
@@ -183,7 +199,7 @@ Space == CASE Mode = "disc"    -> DiscCases
            [] Mode = "derives" -> DeriveCases
            [] Mode = "edges2"  -> Edges2Cases
            [] Mode = "kinds"   -> KindCases
-           [] Mode = "pairroots" -> PairRootCases \cup SplitRootCases \cup SameEventCases
+           [] Mode = "pairroots" -> PairRootCases \cup SplitRootCases \cup SameEventCases \cup PairFieldCases
            [] Mode = "emits"   -> EmitCases
 Init == c \in Space
 Next == UNCHANGED c
@@ -191,7 +207,8 @@ Next == UNCHANGED c
 SetSeq(S) == IF S = {} THEN <<>> ELSE LET RECURSIVE F(_) F(T) == IF T = {} THEN <<>> ELSE LET x == CHOOSE x \in T : TRUE IN <<x>> \o F(T \ {x}) IN F(S)
 Out(x) == IF x.kind = "graph"
           THEN [kind |-> "graph", nodes |-> x.nodes,
-                edges |-> [n \in DOMAIN x.edges |-> SetSeq(x.edges[n])],
+                edges |-> [n \in DOMAIN x.edges |-> LET es == SetSeq(x.edges[n]) IN
+                                                     [i \in DOMAIN es |-> IF "also" \in DOMAIN es[i] THEN [es[i] EXCEPT !.also = SetSeq(@)] ELSE es[i]]],
                 serde |-> x.serde,
                 roots |-> LET rs == SetSeq(x.roots) IN
                           [i \in DOMAIN rs |-> IF "also" \in DOMAIN rs[i] THEN [rs[i] EXCEPT !.also = SetSeq(@)] ELSE rs[i]],
